@@ -154,6 +154,12 @@ def classify(rep):
     return "tsan:race@" + "|".join(names), None
 
 
+def _add_front(res, v):
+    """sanitizer findings first: the driver prints only the first 60 VIOLATION lines"""
+    res.add_viol(v)
+    res.viols.insert(0, res.viols.pop())
+
+
 def harvest(res, files, run, flavour, harness, seed, section_default=None, casemap=None, maxdetail=3):
     """parse stderr logs; add one violation per (key, witness case) for the first few cases, count everything"""
     nrep, keys, bugs = 0, {}, []
@@ -178,7 +184,7 @@ def harvest(res, files, run, flavour, harness, seed, section_default=None, casem
     for key, d in keys.items():
         for case, raw in d["cases"]:
             sec, idx, sd = case if case else (section_default or "?", 0, seed)
-            res.add_viol(dict(key=key, **{"class": "tsan"}, run=run, section=sec, idx=idx, seed=sd, flavour=flavour, harness=harness,
+            _add_front(res, dict(key=key, **{"class": "tsan"}, run=run, section=sec, idx=idx, seed=sd, flavour=flavour, harness=harness,
                               detail=dict(reports_with_this_key=d["n"], report=raw[:6000])))
         res.violcounts[key] = max(res.violcounts.get(key, 0), d["n"])
     for bug, fn, raw in bugs[:5]:
